@@ -52,7 +52,7 @@ CLAIMS['C01'] = {
           'R1/R2 of every sink and cell carry the same (pair, strategy) sequence in input order; processed = min(n, max(1, maxReadPairs)); strategyYields[j] = accepted pairs = R1 records written; '
           'the reader stops at the first exhausted index. Model predicts the bytes of every output file and the counters for 274 (quick) / 9k (thorough) real libraries x 28 strategies.',
   'note': 'Modelled not verified: gzip, text decoding, file system, HandleLimiter (C19). Strategies and the reject-header builder are parameters (what a strategy extracts is C02, barcode correction C03, '
-          'header codec C04); their outcome class per pair is measured by calling the real code. A partial write (R1 serialised, R2 raising) is modelled and excluded from the theorems by step_ok, which is checked on the real code (C01_partial_write_refuted); prune-crossing per-cell libraries (> 10000 writes) are checked against the specification on the real files only. A reject record that cannot be formatted (over-long library name) aborts the run loudly: outside the '
+          'header codec C04); their outcome class per pair is measured by calling the real code. A partial write (R1 serialised, R2 raising) is modelled and excluded from the theorems by step_ok, which is checked on the real code (C01_partial_write_refuted); prune-crossing per-cell libraries (> 10000 writes), the demux.py file-list pairing and run histories into one output directory are checked against the specification on the real files only. A reject record that cannot be formatted (over-long library name) aborts the run loudly: outside the '
           'precondition, recorded by C01_reject_crash_refuted. search() uses a Python transcription of Props/C01.v. No translator tie (K only).'}
 CLAIMS['C02'] = {
   'technique': 'Coq proof (Python-slice lemmas, induction over read tuples, vm_compute over the strategy table regenerated by reflection; Gallina models of the 5 composite strategies and the bulk strategy over the single-protocol arm models, trimmer lemmas by induction, literals regenerated by AST and pinned) + correspondence check against the real strategies',
@@ -75,7 +75,7 @@ CLAIMS['C05'] = {
   'text': 'For every contig list the contig-per-process job list is * followed by each contig exactly once; the mate-pair cache emits every primary record in exactly one pair; for any permuting '
           'sort/merge and any molecule iterator meeting the emit-once contract the written records are a permutation of the primary input records with unchanged id, name, contig, position and mate bits, '
           'single-process and for every completion order of the jobs; --no_rejects writes exactly the valid fragments; every RG is declared in the header; no exception with SAM-conformant flags.',
-  'note': 'PARTIAL: htslib (idxstats, fetch, sort, merge, index) and the process pool are functions constrained by permutation contracts, sampled end-to-end (474 tagger runs quick). The molecule '
+  'note': 'PARTIAL: htslib (idxstats, fetch, sort, merge, index) and the process pool are functions constrained by permutation contracts, sampled end-to-end (~500 tagger runs quick); verify_and_fix_bam / stale input index histories, re-tagging histories with pre-existing RG tags and the > 10000-fragment ejection library are sampled end to end against the specification only. The molecule '
           'iterator is a contract discharged for a simple iterator (the real ejection machine is C07, assignment C06). pysamiterators modelled from the installed copy. Assumes no (name, mate) '
           'collision among primary records and default options; --cluster, -contig/-skip_contig with --multiprocess not modelled.'}
 CLAIMS['C07'] = {
@@ -122,14 +122,14 @@ CLAIMS['C19'] = {
           'single_cell) raises nothing, closes every descriptor, and each file holds exactly its writes in order; under any fault sequence it raises only the OSError of an open that failed with nothing '
           'else open, and the files then hold exactly the completed writes; bamSplitByTag gives each tag value exactly its reads for every max_handles >= 1.',
   'note': 'PARTIAL: the file system and OS are modelled (path -> content after close; failed open has no effect); buffering, gzip framing, write/close failures and real descriptor limits are outside '
-          'the model (gzip validity and RLIMIT_NOFILE exhaustion only sampled in K). No translator tie (K only, with full-trace comparison).'}
+          'the model (gzip validity and RLIMIT_NOFILE exhaustion only sampled in K; injected failures use several errno kinds). T: append test and open modes, where seen.add happens, handler class, retry test, placeholder restore, prune trigger/count/victim key, what close() clears, __init__ defaults/attributes and the write guard are regenerated into Gen/GenHandles.v (fail closed) and the theorems are stated about the model defined with them (19 shape lemmas, C19_tie); the rest of write() and the bamSplitByTag model stay tied by K (full-trace comparison).'}
 CLAIMS['C13'] = {
   'technique': 'Coq proof (vote table = sum of per-fragment contributions; argmax+mask = unique strict maximum; fold invariant for pick_best; Permutation/duplication invariance) about an executable transcription of Molecule.get_consensus / Fragment.get_consensus / pick_best_base_call + correspondence on in-memory pysam molecules',
   'text': 'For every molecule (any number of fragments, overlaps, mismatches, N, quality ties, single mates, dove-tailed mates, missing MD, dove_safe on/off) the consensus at a position is b iff b in ACGT '
           'is called by strictly more fragments than every other base; ties and only-N positions are absent; the vote table equals the declarative per-fragment votes (one call per fragment and position, '
           'the higher-quality mate, N on an equal-quality disagreement); the result is invariant under permutation of insertion order and duplication of every fragment; for every history of add_fragment / _add_fragment / add_molecule / get_consensus operations each query answers for exactly the fragments held (C13_history_query). ~23k (quick) / ~560k (thorough) calls.',
   'note': 'Modelled not verified: pysam accessors (aligned pairs, MD presence) supply the model input; numpy argmax/mask; dict/set semantics. Default kwargs only; assumes bases in ACGTN and two-slot '
-          'read lists (one-slot lists raise IndexError, reproduced by the model); add_fragment\'s accept verdict is an input (C06). No translator tie (K only).'}
+          'read lists (one-slot lists raise IndexError, reproduced by the model); add_fragment\'s accept verdict is an input (C06). Keyword options of get_consensus (only_include_refbase, min_phred_score, skip_*_cycles_R1/R2, dove distances) are a record over which every theorem quantifies and are varied per query in K; allow_N not modelled. No translator tie (K only).'}
 CLAIMS['C06'] = {
   'technique': 'Coq proof (induction over the arrival list through one transition-invariant principle) about an executable model of the greedy assignment and write_tags + correspondence on simulated libraries through the real MoleculeIterator',
   'text': 'Every valid fragment is in exactly one molecule; fragments of a molecule share cell, strand, contig and (NLA, CHIC radius 0) site, and each joined within the UMI distance of the representative '
@@ -137,7 +137,7 @@ CLAIMS['C06'] = {
           'k of each class, TF = class size); the assignment is maximal; after write_tags exactly one fragment per molecule is not duplicate whatever flags the input carried, RC = rank, af = size, '
           'TF = size + overflow; re-tagging is idempotent. 11.7k libraries quick / 90k thorough incl. exhaustive small scopes.',
   'note': 'Model is the NO-ejection machine with pooling_method=1 (schedule independence is C07); the read -> (cell,strand,contig,site,UMI,valid) abstraction uses the implementation accessors (geometry is '
-          'C09); pysam flag/tag storage, Counter order and reflected __eq__ dispatch are modelled and sampled by K; re-tag idempotence is for the same arrival order (BAM round trips sampled). No translator tie.'}
+          'C09) and is additionally checked against generator ground truth; pysam flag/tag storage, Counter order and reflected __eq__ dispatch are modelled and sampled by K; re-tag idempotence is for the same arrival order. T: the __eq__/umi_eq guard chains, the match_hash tuples (composed with what set_site stores), the add_fragment capacity decision and the write_tags tag expressions are regenerated into Gen/GenAssign.v on every run (tools/c06_gen.py, fail closed) and the model is defined with them (C06_kernel_*); running-state folds and the iterator loop remain hand-written (K).'}
 CLAIMS['C18'] = {
   'technique': 'Coq proof: state-machine refinement of the eager / lazy (clear-on-fetch) / cached AlleleResolver against a loop-free mode-independent specification; character-level write_cache/read_cached round trip; correspondence on the real class',
   'text': 'For every VCF, every phased/select_samples/ignore_conversions setting and every history of runs sharing one cache directory (each run eager, lazy or cached, first run writing, later runs reading, '
@@ -145,7 +145,7 @@ CLAIMS['C18'] = {
           'record of the site contains the base, nothing for absent, uninformative or ignored-conversion sites; the cache file format round-trips; several resolver objects in one process answer independently (C18_objects_independent). ~16k (quick) / ~730k (thorough) lookups, cache files byte for byte.',
   'note': 'Modelled not verified: pysam VCF parsing and tabix fetch (abstraction compared with pysam\'s view of every generated record), gzip/text codec, dict/set semantics. Assumes indexed VCF with >= 1 sample '
           'column, region_start/end None, sample names without blanks/commas, VCF unchanged between runs, and - for histories mixing settings - no two (contig, settings) pairs mapping to one cache '
-          'file name (checked per history). The monomorphic rule re-admitting multi-base sites is specified as coded. No translator tie (K only).'}
+          'file name (checked per history). The monomorphic rule re-admitting multi-base sites is specified as coded. T: the kernel of the machine (single-nucleotide tests, selection filter, continue-vs-break on missing alleles, bad/monomorphic rules, ignore_conversions guard and key, store test, cache file name pieces, cache line format, read_cached separators/filters, has_location invalid-contig result, use_cache=>lazyLoad, per-instance table) is regenerated into Gen/GenAlleles.v (fail closed) and connected to the reference definitions by shape lemmas (C18_source_shape); the loop/dict structure is hand-modelled and tied by K.'}
 CLAIMS['C15'] = {
   'technique': 'Coq proof (state-machine invariant over generate_partial_reads, MD encoder/reader round trip, QArith arg-max) about an executable model + correspondence through pysam re-parse of every produced record',
   'text': 'For every read set the consensus records of the model of deduplicate_majority align exactly the sorted distinct covered positions (M over runs, N over gaps, split exactly at gaps > max_N_span, '
